@@ -102,6 +102,10 @@ type cbWorld struct {
 	localCloseCalled bool
 	closedInOnData   bool
 	offerAfterClose  bool
+	stepNo           int
+	closeReturnedAt  int               // step number at which a local Close() call returned (-1: none yet)
+	lastStateLoad    map[*vsThread]int // per goroutine: step number of its last IsOpen() state load
+	closePending     map[*vsThread]bool
 	spawnSlot int
 	viol      *cbViolation
 	kf        string
@@ -143,7 +147,9 @@ func (c *cbCallbacks) OnData(reader BufferReader) {
 		w.maxInside = n
 	}
 	w.res.OnDataCalls++
-	if streamState(w.rx.getStreamStateRaw()) == streamClosed {
+	// "stops being offered once the stream is closed": an OnData invocation whose open-check was made after a local
+	// Close() call had returned
+	if cur := vsCur; cur != nil && w.closeReturnedAt >= 0 && w.lastStateLoad[cur] > w.closeReturnedAt {
 		w.offerAfterClose = true
 	}
 	if l := reader.Len(); l > 0 {
@@ -162,6 +168,7 @@ func (c *cbCallbacks) OnData(reader BufferReader) {
 		w.closedInOnData = true
 		w.localCloseCalled = true
 		w.rx.Close()
+		w.closeReturnedAt = w.stepNo
 		vsYield("cb:after-close")
 	}
 	atomic.AddInt32(&w.inside, -1)
@@ -173,7 +180,8 @@ func (c *cbCallbacks) OnRemoteClose() { c.w.remoteCb++ }
 func (s *Stream) getStreamStateRaw() uint32 { return atomic.LoadUint32(&s.state) }
 
 func cbNewWorld(pair *vpPair, events string, inOnData bool, known []string, res *cbResult) *cbWorld {
-	w := &cbWorld{pair: pair, events: events, inOnData: inOnData, res: res, known: map[string]bool{}, gthr: map[int]*vsThread{}}
+	w := &cbWorld{pair: pair, events: events, inOnData: inOnData, res: res, known: map[string]bool{}, gthr: map[int]*vsThread{},
+		closeReturnedAt: -1, lastStateLoad: map[*vsThread]int{}, closePending: map[*vsThread]bool{}}
 	for _, k := range known {
 		w.known[k] = true
 	}
@@ -289,7 +297,11 @@ func (w *cbWorld) stepThread(th *vsThread) {
 	if w.rx != nil {
 		before = ssState(w.rx)
 	}
+	w.stepNo++
 	ex, _ := vsStep(th)
+	if strings.HasPrefix(ex, "Stream.getStreamState") {
+		w.lastStateLoad[th] = w.stepNo
+	}
 	if strings.HasPrefix(ex, "Stream.Close:CompareAndSwapUint32") && w.kf == "" {
 		w.kf = "close-during-callback"
 	}
@@ -316,7 +328,7 @@ func (w *cbWorld) stepThread(th *vsThread) {
 		w.failKf("C20", "not-serial", fmt.Sprintf("OnData ran %d times concurrently for one stream", w.maxInside))
 	}
 	if w.offerAfterClose {
-		w.failKf("C20", "offered-after-close", "OnData was invoked although the stream was already closed")
+		w.failKf("C20", "offered-after-close", "OnData was started, with its open-check made after a local Close() had already returned")
 	}
 	w.checkOffered()
 }
@@ -400,8 +412,26 @@ func (w *cbWorld) do(st cbStep) bool {
 			return false
 		}
 		w.localCloseCalled = true
-		w.uthr.next = func() { w.rx.Close() }
+		w.uthr.next = func() { w.rx.Close(); w.closeReturnedAt = w.stepNo }
 		w.stepThread(w.uthr.th)
+		return true
+	case "ENext":
+		return w.do(cbStep{Act: "EData"})
+	case "step":
+		// replay of a recorded random interleaving: st.C is the scheduler id of the thread that moved
+		var th *vsThread
+		switch {
+		case st.C == 0:
+			th = w.uthr.th
+		case st.C == 100:
+			th = w.ethr.th
+		case st.C >= 1000 && st.C-1000 < len(vsSpawned):
+			th = vsSpawned[st.C-1000]
+		}
+		if th == nil || th.done || th.pos == "idle" || !vsEnabled(th) {
+			return false
+		}
+		w.stepThread(th)
 		return true
 	case "URet", "GOnDataCloseRet", "GClosingRet":
 		return true // no step of the real code corresponds (return from a call)
@@ -589,33 +619,77 @@ func TestVS_Callback(t *testing.T) {
 			return
 		}
 	}
-	// random interleavings on the real code (oracles only)
+	// random interleavings on the real code (oracles only): at every step a random enabled party moves
 	rng := rand.New(rand.NewSource(job.Random.Seed))
 	alphabet := []string{"ddd", "ddc", "d", "dddd", "dc", "dd", "dddc"}
 	for r := 0; r < job.Random.N; r++ {
 		ev := alphabet[rng.Intn(len(alphabet))]
 		sc := cbSchedule{Name: fmt.Sprintf("random seed=%d run=%d", job.Random.Seed, r), Events: ev, UserClose: rng.Intn(2) == 0, InOnData: rng.Intn(4) == 0}
-		n := 10 + rng.Intn(60)
-		acts := []string{"EData", "EChk", "ECas", "EHalf", "GMove", "GLoop", "GOnDataEnd", "GClr", "GLdCcs", "GReCas", "PubClose1", "CloseBegin"}
-		for i := 0; i < n; i++ {
-			a := acts[rng.Intn(len(acts))]
-			if a == "EData" && rng.Intn(3) == 0 {
-				a = "EClose"
+		w := cbNewWorld(pair, sc.Events, sc.InOnData, job.Known, res)
+		userStarted := false
+		func() {
+			defer func() {
+				if rec := recover(); rec != nil {
+					w.fail("C20", "panic", fmt.Sprint(rec))
+				}
+			}()
+			for step := 0; step < 3000 && w.viol == nil; step++ {
+				type cand struct {
+					kind int // 0 step thread, 1 next event, 2 user close
+					th   *vsThread
+				}
+				var cs []cand
+				ths := []*vsThread{w.ethr.th, w.uthr.th}
+				ths = append(ths, vsSpawned...)
+				for _, th := range ths {
+					if !th.done && th.pos != "idle" && vsEnabled(th) {
+						cs = append(cs, cand{0, th})
+					}
+				}
+				// arrivals and the user's Close are spread over the run: they become candidates only now and then, so that
+				// they also land when the callback goroutine is about to leave
+				if w.ethr.th.pos == "idle" && w.next < len(w.events) && (len(cs) == 0 || rng.Intn(5) == 0) {
+					cs = append(cs, cand{1, nil})
+				}
+				if sc.UserClose && !userStarted && w.uthr.th.pos == "idle" && rng.Intn(8) == 0 {
+					cs = append(cs, cand{2, nil})
+				}
+				if len(cs) == 0 {
+					break
+				}
+				c := cs[rng.Intn(len(cs))]
+				switch c.kind {
+				case 0:
+					w.stepThread(c.th)
+					sc.Steps = append(sc.Steps, cbStep{Act: "step", C: c.th.id})
+				case 1:
+					w.do(cbStep{Act: "EData"})
+					sc.Steps = append(sc.Steps, cbStep{Act: "ENext"})
+				case 2:
+					userStarted = true
+					w.do(cbStep{Act: "UStart"})
+					sc.Steps = append(sc.Steps, cbStep{Act: "UStart"})
+				}
+				res.RandomSteps++
 			}
-			if sc.UserClose && rng.Intn(12) == 0 {
-				a = "UStart"
+			if w.viol == nil {
+				w.finish()
 			}
-			sc.Steps = append(sc.Steps, cbStep{Act: a, C: rng.Intn(3)})
+		}()
+		if w.viol != nil {
+			w.viol.Schedule, w.viol.Steps = sc.Name, sc.Steps
+			w.viol.Events, w.viol.UserClose, w.viol.InOnData = sc.Events, sc.UserClose, sc.InOnData
+			w.viol.Kf = w.kf
+			res.Violations = append(res.Violations, *w.viol)
 		}
-		// EData/EClose must follow the event string: fix them up at run time in do() (it uses w.next), here only ordering
-		for i := range sc.Steps {
-			if sc.Steps[i].Act == "EData" || sc.Steps[i].Act == "EClose" {
-				sc.Steps[i].Act = "ENext"
-			}
+		bad := w.viol != nil
+		w.closeWorld()
+		if bad {
+			mkPair()
+		} else {
+			w.cleanup()
 		}
-		run(cbFix(sc), false)
 		res.RandomRuns++
-		res.RandomSteps += len(sc.Steps)
 		if len(res.Samples) < 3 {
 			res.Samples = append(res.Samples, fmt.Sprintf("events=%s userclose=%v closeInOnData=%v steps=%d", sc.Events, sc.UserClose, sc.InOnData, len(sc.Steps)))
 		}
